@@ -173,7 +173,286 @@ def gen_kinds():
     return "\n".join(lines) + "\n"
 
 
+def protocol_versions():
+    """{name: (major, minor)} of `pub const V1_xx: Self = Self::new(a, b);` in protocol_version.rs;
+    also checks that ProtocolVersion orders lexicographically by (major, minor): derived
+    PartialOrd/Ord over the fields in that order"""
+    rel = "core/src/protocol_version.rs"
+    src = strip_comments(read(rel))
+    m = re.search(r"((?:#\[[^\]]*\]\s*)+)pub\s+struct\s+ProtocolVersion\s*\{([^}]*)\}", src)
+    if not m:
+        raise TieError(f"{rel}: struct ProtocolVersion not found")
+    attrs, body = m.group(1), m.group(2)
+    derives = ",".join(re.findall(r"#\[derive\(([^)]*)\)\]", attrs))
+    names = [d.strip() for d in derives.split(",")]
+    if "PartialOrd" not in names or "Ord" not in names:
+        raise TieError(f"{rel}: ProtocolVersion does not derive PartialOrd/Ord (ordering is no longer lexicographic by derive)")
+    fields = [f.strip().split(":")[0].replace("pub", "").strip() for f in body.split(",") if f.strip()]
+    if fields != ["major", "minor"]:
+        raise TieError(f"{rel}: ProtocolVersion fields are {fields}, expected [major, minor]")
+    if re.search(r"impl\s+(?:PartialOrd|Ord)\s+for\s+ProtocolVersion", src):
+        raise TieError(f"{rel}: hand-written ordering for ProtocolVersion")
+    out = {}
+    for mm in re.finditer(r"pub\s+const\s+(V\d+_\d+)\s*:\s*Self\s*=\s*Self::new\(\s*(\d+)\s*,\s*(\d+)\s*\)\s*;", src):
+        out[mm.group(1)] = (int(mm.group(2)), int(mm.group(3)))
+    if not out:
+        raise TieError(f"{rel}: no ProtocolVersion::Vx_y constants found")
+    return out
+
+
+def gen_conv_consts():
+    """the Epoch bounds of convert_value.rs (V1_MIN/V1_MAX/V2_MIN/V2_MAX in Epoch::try_from, MAX in
+    convert) resolved through the ProtocolVersion::V1_xx constants, plus shape checks of the two
+    comparisons the model transcribes"""
+    rel = "core/src/convert_value.rs"
+    src = strip_comments(read(rel))
+    vers = protocol_versions()
+
+    def fn_body(pattern, what):
+        m = re.search(pattern, src)
+        if not m:
+            raise TieError(f"{rel}: {what} not found")
+        i = src.index("{", m.end() - 1)
+        return src[i:match_brace(src, i)]
+
+    def bound(body, name, what):
+        m = re.search(r"\bconst\s+" + name + r"\s*:\s*ProtocolVersion\s*=\s*ProtocolVersion::(\w+)\s*;", body)
+        if not m:
+            raise TieError(f"{rel}: const {name} not found in {what}")
+        if m.group(1) not in vers:
+            raise TieError(f"{rel}: {name} = ProtocolVersion::{m.group(1)} is not a constant of protocol_version.rs")
+        return vers[m.group(1)]
+
+    m = re.search(r"impl\s+TryFrom<ProtocolVersion>\s+for\s+Epoch\s*\{", src)
+    if not m:
+        raise TieError(f"{rel}: impl TryFrom<ProtocolVersion> for Epoch not found")
+    tf = src[m.end() - 1:match_brace(src, m.end() - 1)]
+    flat = re.sub(r"\s+", " ", tf)
+    shape = (r"if \(version >= V1_MIN\) && \(version <= V1_MAX\) \{ Ok\(Self::V1\) \} "
+             r"else if \(version >= V2_MIN\) && \(version <= V2_MAX\) \{ Ok\(Self::V2\) \} "
+             r"else \{ Err\(ValueConversionError::InvalidVersion\) \}")
+    if not re.search(shape, flat):
+        raise TieError(f"{rel}: Epoch::try_from no longer has the shape `V1_MIN <= v <= V1_MAX -> V1, V2_MIN <= v <= V2_MAX -> V2, else InvalidVersion`")
+    ep = repr_plain_enum(src, "Epoch", rel)
+    if ep != ["V1", "V2"]:
+        raise TieError(f"{rel}: enum Epoch variants are {ep}, expected [V1, V2] (derived Ord: V1 < V2)")
+    conv = fn_body(r"pub\(crate\)\s+fn\s+convert\s*\(", "fn convert")
+    cflat = re.sub(r"\s+", " ", conv)
+    if not re.search(r"let from = Epoch::try_from\(from\.unwrap_or\(MAX\)\)\?; let to = Epoch::try_from\(to\)\?; if to < from \{", cflat):
+        raise TieError(f"{rel}: fn convert no longer starts with `from = Epoch(from.unwrap_or(MAX))?; to = Epoch(to)?; if to < from`")
+    vals = [("CONV_V1_MIN", bound(tf, "V1_MIN", "Epoch::try_from")),
+            ("CONV_V1_MAX", bound(tf, "V1_MAX", "Epoch::try_from")),
+            ("CONV_V2_MIN", bound(tf, "V2_MIN", "Epoch::try_from")),
+            ("CONV_V2_MAX", bound(tf, "V2_MAX", "Epoch::try_from")),
+            ("CONV_MAX", bound(conv, "MAX", "fn convert"))]
+    lines = ["(* generated by tools/rs2v.py from /repo — do not edit *)",
+             "From Coq Require Import NArith.", "Open Scope N_scope.", "",
+             "(* (major, minor); ProtocolVersion derives Ord over (major, minor): lexicographic *)"]
+    for n, (a, b) in vals:
+        lines.append(f"Definition {n} : N * N := ({a}, {b}).")
+    return "\n".join(lines) + "\n"
+
+
+def repr_plain_enum(src, name, rel):
+    """variant names of a field-less enum without discriminants, in declaration order"""
+    m = re.search(r"\benum\s+" + re.escape(name) + r"\s*\{", src)
+    if not m:
+        raise TieError(f"{rel}: enum {name} not found")
+    end = match_brace(src, m.end() - 1)
+    out = []
+    for item in src[m.end():end - 1].split(","):
+        item = re.sub(r"#\[[^\]]*\]", "", item).strip()
+        if not item:
+            continue
+        if not re.fullmatch(r"\w+", item):
+            raise TieError(f"{rel}: enum {name}: unexpected variant `{item}`")
+        out.append(item)
+    return out
+
+
 GENERATORS = {"Consts.v": gen_consts, "Kinds.v": gen_kinds}
+GENERATORS["ConvConsts.v"] = gen_conv_consts
+
+
+# ---------------------------------------------------------------- C14: packetizer / stream transport
+
+def fn_body(src, name, rel):
+    """whitespace-free body of `fn name(...) ... { body }` (comments stripped by the caller)"""
+    m = re.search(r"\bfn\s+" + re.escape(name) + r"\b", src)
+    if not m:
+        raise TieError(f"{rel}: fn {name} not found")
+    i = src.find("{", m.end())
+    if i < 0:
+        raise TieError(f"{rel}: fn {name} has no body")
+    return re.sub(r"\s+", "", src[i + 1:match_brace(src, i) - 1])
+
+
+def const_resolved(src, name, rel, depth=0):
+    """like const_int, but a right-hand side naming another const of the same file is followed"""
+    m = re.search(r"\bconst\s+" + re.escape(name) + r"\s*:\s*\w+\s*=\s*([^;]+);", src)
+    if not m:
+        raise TieError(f"{rel}: const {name} not found")
+    rhs = m.group(1).strip()
+    if re.fullmatch(r"[A-Z][A-Z0-9_]*", rhs) and depth < 4:
+        return const_resolved(src, rhs, rel, depth + 1)
+    return eval_int(rhs, rel)
+
+
+_PK_RES = ("ifself.buf.capacity()<len{letreserve=(len-self.buf.len())"
+           ".clamp(MIN_RESERVE_CAPACITY,MAX_RESERVE_CAPACITY);self.buf.reserve(reserve);}")
+_PK_FB = "ifself.buf.capacity()==self.buf.len(){self.buf.reserve(MIN_RESERVE_CAPACITY);}"
+_PK_SHAPES = {
+    # 0: as found at the pinned commit: the `capacity == len` fallback only when no length is cached
+    "ifletSome(len)=self.len{" + _PK_RES + "}else" + _PK_FB: 0,
+    # 1: the fallback runs after the `Some(len)` branch too (sequential `if`)
+    "ifletSome(len)=self.len{" + _PK_RES + "}" + _PK_FB: 1,
+    # 2: the fallback is an inner `else if` of the `Some(len)` branch and the outer `else if` stays
+    "ifletSome(len)=self.len{" + _PK_RES + "else" + _PK_FB + "}else" + _PK_FB: 2,
+}
+_PK_TAIL = re.compile(r"letslice=self\.buf\.spare_capacity_mut\(\);(debug_assert!\(!slice\.is_empty\(\)\);)?slice")
+_PK_NEXT = re.compile(
+    r"ifself\.buf\.len\(\)<(\d+)\{returnNone;\}letlen=matchself\.len\{Some\(len\)=>len,None=>\{"
+    r"letlen=\(&self\.buf\[\.\.(\d+)\]\)\.get_u32_le\(\)asusize;self\.len=Some\(len\);len\}\};"
+    r"ifself\.buf\.len\(\)>=len\{letmutmsg=self\.buf\.split_to\(len\.max\((\d+)\)\);msg\.truncate\(len\);"
+    r"self\.len=None;Some\(msg\)\}else\{None\}")
+
+_TOKIO_BODIES = {
+    "receive_poll":
+        "letmutthis=self.project();loop{ifletSome(buf)=this.packetizer.next_message(){returnPoll::Ready("
+        "Message::deserialize_message(buf).map_err(TokioTransportError::Deserialize),);}"
+        "letmutread_buf=ReadBuf::uninit(this.packetizer.spare_capacity_mut());"
+        "matchthis.io.as_mut().poll_read(cx,&mutread_buf){"
+        "Poll::Ready(Ok(()))ifread_buf.filled().is_empty()=>{returnPoll::Ready(Err(TokioTransportError::Io("
+        "IoErrorKind::UnexpectedEof.into(),)))}"
+        "Poll::Ready(Ok(()))=>{letlen=read_buf.filled().len();unsafe{this.packetizer.bytes_written(len);}}"
+        "Poll::Ready(Err(e))=>returnPoll::Ready(Err(TokioTransportError::Io(e))),"
+        "Poll::Pending=>returnPoll::Pending,}}",
+    "send_poll_ready":
+        "ifself.write_buf.len()>=BACKPRESSURE_BOUNDARY{self.send_poll_flush(cx)}else{Poll::Ready(Ok(()))}",
+    "send_start":
+        "letthis=self.project();letmsg=msg.serialize_message().map_err(TokioTransportError::Serialize)?;"
+        "ifthis.write_buf.is_empty(){*this.write_buf=msg;}else{this.write_buf.extend_from_slice(&msg);}Ok(())",
+    "send_poll_flush":
+        "letmutthis=self.project();while!this.write_buf.is_empty(){"
+        "matchthis.io.as_mut().poll_write(cx,this.write_buf){"
+        "Poll::Ready(Ok(0))=>{returnPoll::Ready(Err(TokioTransportError::Io(IoErrorKind::WriteZero.into(),)));}"
+        "Poll::Ready(Ok(n))=>{this.write_buf.advance(n);}"
+        "Poll::Ready(Err(e))=>returnPoll::Ready(Err(TokioTransportError::Io(e))),"
+        "Poll::Pending=>returnPoll::Pending,}}"
+        "this.io.poll_flush(cx).map_err(TokioTransportError::Io)",
+}
+_BUFFERED_BODIES = {
+    "receive_poll": "self.project().inner.receive_poll(cx)",
+    "send_poll_ready": "Poll::Ready(Ok(()))",
+    "send_start": "self.project().buffer.push_back(msg);Ok(())",
+    "send_poll_flush":
+        "letmutthis=self.project();while!this.buffer.is_empty(){"
+        "matchthis.inner.as_mut().send_poll_ready(cx){"
+        "Poll::Ready(Ok(()))=>{letmsg=this.buffer.pop_front().unwrap();this.inner.as_mut().send_start(msg)?;}"
+        "Poll::Ready(Err(e))=>returnPoll::Ready(Err(e)),Poll::Pending=>returnPoll::Pending,}}"
+        "this.inner.as_mut().send_poll_flush(cx)",
+}
+
+
+def gen_stream_consts():
+    """constants and control-flow shapes of the packetizer and the stream transports (C14).
+    The bodies the Coq model transcribes are compared text-for-text (whitespace and comments
+    removed); `spare_capacity_mut` may have one of three known shapes, reported as SPARE_SHAPE."""
+    rel = "core/src/message/packetizer.rs"
+    full = strip_comments(read(rel))
+    t = full.find("#[cfg(test)]")
+    src = full[:t] if t >= 0 else full
+    lines = ["(* generated by tools/rs2v.py from /repo — do not edit *)",
+             "From Coq Require Import NArith Bool.", "Open Scope N_scope.", ""]
+    for c in ("MIN_RESERVE_CAPACITY", "MAX_RESERVE_CAPACITY"):
+        lines.append(f"Definition {c} : N := {const_resolved(src, c, rel)}.")
+    if fn_body(src, "new", rel) != "Self{buf:BytesMut::new(),len:None,}":
+        raise TieError(f"{rel}: Packetizer::new has an unexpected body")
+    if fn_body(src, "extend_from_slice", rel) != "self.buf.extend_from_slice(bytes.as_ref());":
+        raise TieError(f"{rel}: extend_from_slice has an unexpected body")
+    if fn_body(src, "bytes_written", rel) != "unsafe{self.buf.set_len(self.buf.len()+len);}":
+        raise TieError(f"{rel}: bytes_written has an unexpected body")
+    m = _PK_NEXT.fullmatch(fn_body(src, "next_message", rel))
+    if not m:
+        raise TieError(f"{rel}: next_message has an unexpected body")
+    lines.append(f"Definition PK_HEADER_LEN : N := {int(m.group(1))}.   (* `self.buf.len() < _` *)")
+    lines.append(f"Definition PK_HEADER_SLICE : N := {int(m.group(2))}. (* `&self.buf[.._]` read as u32 LE *)")
+    lines.append(f"Definition PK_SPLIT_MIN : N := {int(m.group(3))}.    (* `split_to(len.max(_))` *)")
+    body = fn_body(src, "spare_capacity_mut", rel)
+    mt = _PK_TAIL.search(body)
+    if not mt or mt.end() != len(body) or body[:mt.start()] not in _PK_SHAPES:
+        raise TieError(f"{rel}: spare_capacity_mut has a shape the model does not know: `{body}`")
+    lines.append(f"Definition SPARE_SHAPE : N := {_PK_SHAPES[body[:mt.start()]]}.")
+    lines.append("Definition SPARE_DEBUG_ASSERT : bool := %s." % ("true" if mt.group(1) else "false"))
+    rel = "core/src/tokio.rs"
+    src = strip_comments(read(rel))
+    for c in ("INITIAL_CAPACITY", "BACKPRESSURE_BOUNDARY"):
+        lines.append(f"Definition {c} : N := {const_resolved(src, c, rel)}.")
+    i = src.find("impl<T> AsyncTransport for TokioTransport<T>")
+    if i < 0:
+        raise TieError(f"{rel}: impl AsyncTransport for TokioTransport not found")
+    for name, want in _TOKIO_BODIES.items():
+        if fn_body(src[i:], name, rel) != want:
+            raise TieError(f"{rel}: TokioTransport::{name} has an unexpected body")
+    rel = "core/src/transport/buffered.rs"
+    src = strip_comments(read(rel))
+    i = src.find("AsyncTransport for Buffered<T>")
+    if i < 0:
+        raise TieError(f"{rel}: impl AsyncTransport for Buffered not found")
+    for name, want in _BUFFERED_BODIES.items():
+        if fn_body(src[i:], name, rel) != want:
+            raise TieError(f"{rel}: Buffered::{name} has an unexpected body")
+    return "\n".join(lines) + "\n"
+
+
+GENERATORS["StreamConsts.v"] = gen_stream_consts
+
+
+def gen_intro_consts():
+    """C20: introspection field ids, namespaces, writer-call tables (tools/rs2v_intro.py)"""
+    sys.path.insert(0, os.path.dirname(os.path.abspath(__file__)))
+    import rs2v_intro
+    return rs2v_intro.gen_intro_consts(sys.modules[__name__])
+
+
+GENERATORS["IntroConsts.v"] = gen_intro_consts
+
+
+# ---------------------------------------------------------------- C08: message codec (tools/rs2v_msg.py)
+
+def _msg_generator(fn_name):
+    """the message-codec scanner lives in rs2v_msg.py; it imports this file as module `rs2v`, whose
+    TieError is a different class object when this file runs as __main__, hence the re-raise"""
+    def run():
+        sys.path.insert(0, os.path.dirname(os.path.abspath(__file__)))
+        import rs2v_msg
+        try:
+            return getattr(rs2v_msg, fn_name)()
+        except rs2v_msg.TieError as e:
+            raise TieError(str(e))
+    return run
+
+
+GENERATORS["MsgKinds.v"] = _msg_generator("gen_msgkinds")
+GENERATORS["MsgSig.v"] = _msg_generator("gen_msgsig")
+
+
+# ---------------------------------------------------------------- broker model constants
+sys.path.insert(0, os.path.dirname(os.path.abspath(__file__)))
+import rs2v_broker  # noqa: E402
+
+GENERATORS["BrokerConsts.v"] = lambda: rs2v_broker.gen_broker_consts(read, strip_comments, match_brace, const_int, TieError)
+
+
+# ---------------------------------------------------------------- C18/C17: schema grammar tokens (tools/rs2v_schema.py)
+
+def gen_grammar_tokens():
+    sys.path.insert(0, os.path.dirname(os.path.abspath(__file__)))
+    import rs2v_schema
+    return rs2v_schema.gen_grammar_tokens(sys.modules[__name__])
+
+
+GENERATORS["GrammarTokens.v"] = gen_grammar_tokens
 
 
 def main():
